@@ -904,6 +904,25 @@ impl World {
         }
         let resent: Vec<WirePkt> = self.sim.wire[after_connect..].to_vec();
         self.attributed = self.sim.wire.len();
+        // an operation that failed together with the previous connection (its own packet could not be written, so its
+        // response channel was dropped: ContextExited) is finished; it holds no slot and nothing is owed for it
+        for i in 0..self.m.len() {
+            if let Some(o) = &self.sim.ops[i].out {
+                if matches!(o.err(), Some(ErrSum::ContextExited)) && self.m[i].expected.is_none() && !self.m[i].checked_done {
+                    self.m[i].expected = Some(o.clone());
+                    self.m[i].checked_done = true;
+                    if self.m[i].holds_slot {
+                        self.m[i].holds_slot = false;
+                        self.inflight = self.inflight.saturating_sub(1);
+                    }
+                    if let Some(id) = self.m[i].pkt_id {
+                        if self.ids_outstanding.get(&id) == Some(&i) {
+                            self.ids_outstanding.remove(&id);
+                        }
+                    }
+                }
+            }
+        }
         // old wire indices are meaningless now; operations that completed on the previous connection were judged there
         for (i, m) in self.m.iter_mut().enumerate() {
             if m.req_wire.is_some() {
@@ -1004,6 +1023,14 @@ impl World {
         }
         for i in want_rels {
             self.viol(&["C17"], "C17/not-resent/PUBREL".into(), format!("op{i}: PUBREL id {:?} without PUBCOMP was not re-sent on the resumed connection", self.m[i].pkt_id));
+        }
+        // a publish whose future is still pending but for which nothing is in flight on the new connection can never complete
+        for i in 0..self.m.len() {
+            let m = &self.m[i];
+            if m.kind.is_qos_pub() && m.submitted && !m.dropped && m.accepted == Some(true) && m.req_wire.is_none() && self.sim.ops[i].task.alive() && self.sim.ops[i].out.is_none() && m.ever_on_wire {
+                let k = m.kind.name();
+                self.viol(&["C17"], format!("C17/pending-operation-not-resent/{k}"), format!("op{i} ({k}, id {:?}): its future is still pending on the resumed connection but neither its PUBLISH nor its PUBREL was re-sent - it can never complete", self.m[i].pkt_id));
+            }
         }
         // every unfinished handshake occupies a slot of the new connection's Receive Maximum. When more handshakes were
         // unfinished than the new Receive Maximum allows, the mandatory re-sending itself exceeds it: nothing is asserted
@@ -1576,7 +1603,8 @@ impl World {
                 }
             }
             // QoS 2 second phase
-            if kind == Kind::Pub2 && serving && self.m[i].ack1 && self.m[i].ack1_ok && !self.m[i].ack2 && self.m[i].rel_wire.is_none() && self.m[i].accepted == Some(true) {
+            let failed_with_connection = self.m[i].checked_done && self.m[i].expected.as_ref().map(|e| !e.is_ok()).unwrap_or(false);
+            if kind == Kind::Pub2 && serving && self.m[i].ack1 && self.m[i].ack1_ok && !self.m[i].ack2 && self.m[i].rel_wire.is_none() && self.m[i].accepted == Some(true) && !failed_with_connection {
                 self.viol(P_C06, "C06/pubrel-missing".into(), format!("op{i}: PUBREC (success) was delivered and everything settled, but no PUBREL id {:?} is on the wire", self.m[i].pkt_id));
                 self.m[i].dropped = true;
             }
